@@ -134,31 +134,26 @@ def set_parent(n):
 # equality as JSON values (objects as key/value sets)
 
 def norm_tn(n, with_key=False):
-    """TN of the tree with object members sorted by key and ownership flags / integer views dropped"""
-    out = []
-
-    def rec(m, wk):
-        if wk and m.key is not None:
-            out.append('k' + m.key.hex() + ';')
+    """canonical text of the tree as a JSON value: object members sorted by (key, canonical value),
+    ownership flags and integer views dropped"""
+    def rec(m):
         k = m.kind
         if k in 'ztf':
-            out.append(k)
-        elif k == 'n':
-            out.append('n%016x;' % (m.bits if m.bits != 0x8000000000000000 else 0))
-        elif k in 'sw':
-            out.append(k + (m.sval or b'').hex() + ';')
-        elif k == 'a':
-            out.append('a%d;' % len(m.kids))
-            for c in m.kids:
-                rec(c, False)
-        elif k == 'o':
-            out.append('o%d;' % len(m.kids))
-            for c in sorted(m.kids, key=lambda q: q.key or b''):
-                rec(c, True)
-        else:
-            out.append('i;')
-    rec(n, with_key)
-    return ''.join(out)
+            return k
+        if k == 'n':
+            return 'n%016x;' % (m.bits if m.bits != 0x8000000000000000 else 0)
+        if k in 'sw':
+            return k + (m.sval or b'').hex() + ';'
+        if k == 'a':
+            return 'a%d;' % len(m.kids) + ''.join(rec(c) for c in m.kids)
+        if k == 'o':
+            parts = sorted(('k' + (c.key or b'').hex() + ';' + rec(c)) for c in m.kids)
+            return 'o%d;' % len(m.kids) + ''.join(parts)
+        return 'i;'
+    body = rec(n)
+    if with_key and n.key is not None:
+        return 'k' + n.key.hex() + ';' + body
+    return body
 
 
 def json_equal(a, b):
